@@ -258,10 +258,10 @@ static std::vector<size_t> out_indices(size_t cnt, size_t esz)
 }
 
 // ------------------------------------------------------------------------------------------------ exceptions as outcomes
-enum Thrown { T_NONE, T_CONTRACT, T_OOR, T_STD, T_OTHER };
+enum Thrown { T_NONE, T_CONTRACT, T_OOR, T_STD, T_OTHER, T_FATAL };
 static const char* tname(Thrown t)
 {
-    return t == T_NONE ? "no exception" : t == T_CONTRACT ? "contract_violation_error" : t == T_OOR ? "std::out_of_range" : t == T_STD ? "std::exception" : "non-std exception";
+    return t == T_FATAL ? "a fatal sanitizer report / crash (the accessor formed a null reference)" : t == T_NONE ? "no exception" : t == T_CONTRACT ? "contract_violation_error" : t == T_OOR ? "std::out_of_range" : t == T_STD ? "std::exception" : "non-std exception";
 }
 template <class F>
 static Thrown guarded(F f)
@@ -274,6 +274,35 @@ static Thrown guarded(F f)
     catch (const std::exception&) { return T_STD; }
     catch (...) { return T_OTHER; }
 }
+
+// An out-of-range probe on a view whose data() is null (empty vector, std::array<T,0>, default-constructed span) would, if the
+// accessor wrongly accepted the index, bind a reference to address 0: UBSan reports that fatally.  Such probes run in a forked
+// grandchild so that the outcome (rejected / accepted / fatal report) is an ordinary observation and the enumeration goes on.
+static long long g_isolated = 0;
+template <class F>
+static Thrown guarded_iso(bool danger, F f)
+{
+    if (!danger) return guarded(f);
+    ++g_isolated;
+    std::fflush(stdout);
+    pid_t pid = fork();
+    if (pid < 0) return guarded(f);
+    if (pid == 0)
+    {
+        int sigs[] = {SIGSEGV, SIGABRT, SIGFPE, SIGBUS, SIGILL};
+        for (int sg : sigs) std::signal(sg, SIG_DFL);
+        Thrown t = guarded(f);
+        _exit(t == T_NONE ? 11 : 20 + int(t));
+    }
+    int st = 0;
+    if (waitpid(pid, &st, 0) != pid || !WIFEXITED(st)) return T_FATAL;
+    int rc = WEXITSTATUS(st);
+    if (rc == 11) return T_NONE;
+    if (rc > 20 && rc < 20 + int(T_FATAL)) return Thrown(rc - 20);
+    return T_FATAL;
+}
+template <class E>
+static bool null_ref(const E* data, size_t i) { return uintptr_t(data) + uintptr_t(i) * sizeof(E) == 0; }
 
 static std::string kind_name(bool dynamic) { return dynamic ? "span<T,dyn>" : "span<T,N>"; }
 
@@ -441,13 +470,14 @@ struct get_one
         const E* a = nullptr;
         const char* pn = in ? "get<N>(N<size)" : "get<N>(N>=size)";
         probe_count(rq, pn, size_t(N), !in);
-        Thrown t = guarded([&] { a = &tcb::get<N>(v); });
+        const bool danger = !in && null_ref(v.data(), size_t(N));
+        Thrown t = guarded_iso(danger, [&] { a = &tcb::get<N>(v); });
         if (in)
         {
             if (t != T_NONE) pviol(rq, vk, pn, "threw", "N = " + s128(N) + " threw " + tname(t));
             else if (a != rg.elems() + off + size_t(N)) pviol(rq, vk, pn, "wrong_element", "N = " + s128(N) + " refers to " + relpos(a, rg.elems()) + ", expected parent element " + su(off + size_t(N)));
         }
-        else if (t == T_NONE) pviol(rq, vk, pn, "accepted_out_of_range", "get<" + s128(N) + ">(view) returned a reference (" + relpos(a, rg.elems()) + ") instead of being rejected");
+        else if (t == T_NONE || t == T_FATAL) pviol(rq, vk, pn, "accepted_out_of_range", danger ? "get<" + s128(N) + ">(view) on a view with data() == nullptr ended with " + tname(t) + " instead of being rejected" : "get<" + s128(N) + ">(view) returned a reference (" + relpos(a, rg.elems()) + ") instead of being rejected");
     }
 };
 template <std::ptrdiff_t N, std::ptrdiff_t Max>
@@ -559,20 +589,21 @@ static void check_view(Req& rq, const Vw& v, Region<V>& rg, size_t off, size_t c
     {
         const E* a = nullptr;
         probe_count(rq, "at(i>=size)", i, true);
-        Thrown t = guarded([&] { a = &v.at(i); });
-        if (t == T_NONE) pviol(rq, vk, "at(i>=size)", "no_throw", "at(" + nice(i) + ") returned a reference (parent" + std::to_string((long long)((const char*)a - (const char*)rg.elems())) + " bytes) instead of throwing");
+        const bool danger = null_ref(v.data(), i);
+        Thrown t = guarded_iso(danger, [&] { a = &v.at(i); });
+        if (t == T_NONE || t == T_FATAL) pviol(rq, vk, "at(i>=size)", "no_throw", danger ? "at(" + nice(i) + ") on a view with data() == nullptr ended with " + tname(t) + " instead of throwing" : "at(" + nice(i) + ") returned a reference (parent" + std::to_string((long long)((const char*)a - (const char*)rg.elems())) + " bytes) instead of throwing");
         else vf::stat(std::string("at_out_of_range_threw_") + tname(t));
 #if C16_CHECKED
         a = nullptr;
         probe_count(rq, "operator[](i>=size)", i, true);
-        t = guarded([&] { a = &v[i]; });
-        if (t == T_NONE) pviol(rq, vk, "operator[](i>=size)", "accepted_out_of_range", "[" + nice(i) + "] returned a reference (parent" + std::to_string((long long)((const char*)a - (const char*)rg.elems())) + " bytes) instead of being rejected");
+        t = guarded_iso(danger, [&] { a = &v[i]; });
+        if (t == T_NONE || t == T_FATAL) pviol(rq, vk, "operator[](i>=size)", "accepted_out_of_range", danger ? "[" + nice(i) + "] on a view with data() == nullptr ended with " + tname(t) + " instead of being rejected" : "[" + nice(i) + "] returned a reference (parent" + std::to_string((long long)((const char*)a - (const char*)rg.elems())) + " bytes) instead of being rejected");
         if (have_call)
         {
             a = nullptr;
             probe_count(rq, "operator()(i>=size)", i, true);
-            t = guarded([&] { a = call_op(v, i, has_call_op<Vw>()); });
-            if (t == T_NONE) pviol(rq, vk, "operator()(i>=size)", "accepted_out_of_range", "(" + nice(i) + ") returned a reference (" + relpos(a, rg.elems()) + ") instead of being rejected");
+            t = guarded_iso(danger, [&] { a = call_op(v, i, has_call_op<Vw>()); });
+            if (t == T_NONE || t == T_FATAL) pviol(rq, vk, "operator()(i>=size)", "accepted_out_of_range", danger ? "(" + nice(i) + ") on a view with data() == nullptr ended with " + tname(t) + " instead of being rejected" : "(" + nice(i) + ") returned a reference (" + relpos(a, rg.elems()) + ") instead of being rejected");
         }
 #endif
     }
@@ -581,7 +612,8 @@ static void check_view(Req& rq, const Vw& v, Region<V>& rg, size_t off, size_t c
     {
         const E* a = nullptr;
         probe_count(rq, "front() on empty", 0, true);
-        if (guarded([&] { a = &v.front(); }) == T_NONE) pviol(rq, vk, "front() on empty", "accepted", "front() of an empty view returned a reference");
+        const Thrown tf = guarded_iso(v.data() == nullptr, [&] { a = &v.front(); });
+        if (tf == T_NONE || tf == T_FATAL) pviol(rq, vk, "front() on empty", "accepted", std::string("front() of an empty view ended with ") + tname(tf) + " instead of being rejected");
         probe_count(rq, "back() on empty", 0, true);
         if (guarded([&] { a = &v.back(); }) == T_NONE) pviol(rq, vk, "back() on empty", "accepted", "back() of an empty view returned a reference");
         (void)a;
@@ -960,6 +992,7 @@ int main(int argc, char** argv)
         vf::stat("views_probed", g_views);
         vf::stat("probes", g_probes);
         vf::stat("write_probes", g_writes);
+        vf::stat("probes_isolated_in_a_forked_process", g_isolated);
         if (!keys_out.empty())
         {
             FILE* f = std::fopen(keys_out.c_str(), "wb");
